@@ -21,9 +21,12 @@ EXTENDS Integers, Sequences, FiniteSets, TLC
 CONSTANTS Callers,          \* 1..n
           ConnStates,       \* subset of {"up", "absent", "broken"} the scenario may start in
           MaxReplies, LeakOnSendError, RemoveOnTimeout, MatchCreation,
+          OtherPeer,        \* TRUE: the node also has a connection to a second peer, which may go down at any time
+          ClearOnAnyDisconnect,  \* deviation (FALSE in the code): the end of ANY connection's receiver empties the node-wide table
           SeqCallers        \* TRUE: generator configurations in which caller c starts only after every caller below c has returned
-VARIABLES pc, rid, table, conn, wire, inbox, result, nextRid, replies, delivered, hist
-vars == <<pc, rid, table, conn, wire, inbox, result, nextRid, replies, delivered, hist>>
+VARIABLES pc, rid, table, conn, wire, inbox, result, nextRid, replies, delivered, hist,
+          otherUp     \* the connection to the second peer is up
+vars == <<pc, rid, table, conn, wire, inbox, result, nextRid, replies, delivered, hist, otherUp>>
 None == 0
 Stray == 99            \* a call id no caller owns
 Stale(r) == r + 50     \* the reply pid of call r with the creation of an earlier incarnation of the node
@@ -33,7 +36,7 @@ R(k, r) == [k |-> k, r |-> r]
 Init == /\ pc = [c \in Callers |-> "idle"] /\ rid = [c \in Callers |-> None] /\ table = {}
         /\ conn \in ConnStates /\ wire = {} /\ inbox = <<>>
         /\ result = [c \in Callers |-> R("none", 0)] /\ nextRid = 1 /\ replies = 0
-        /\ delivered = [r \in 1..Cardinality(Callers) |-> 0] /\ hist = <<>>
+        /\ delivered = [r \in 1..Cardinality(Callers) |-> 0] /\ hist = <<>> /\ otherUp = OtherPeer
 Go(c, from, to) == pc[c] = from /\ pc' = [pc EXCEPT ![c] = to]
 H(a, x) == hist' = Append(hist, <<a, x>>)
 Alloc(c)  == Go(c, "idle", "allocated") /\ (SeqCallers => \A d \in Callers : d < c => pc[d] = "returned") /\ rid' = [rid EXCEPT ![c] = nextRid] /\ nextRid' = nextRid + 1 /\ H("alloc", c)
@@ -69,14 +72,25 @@ Route == /\ inbox # <<>> /\ inbox' = Tail(inbox) /\ H("route", Head(inbox))
                  /\ delivered' = [delivered EXCEPT ![k] = @ + 1]
             ELSE UNCHANGED <<table, result, delivered>>
          /\ UNCHANGED <<pc, rid, conn, wire, nextRid, replies>>
-Next == \/ \E c \in Callers : Alloc(c) \/ Insert(c) \/ NoConn(c) \/ SendOk(c) \/ SendFail(c) \/ Timeout(c) \/ Cleanup(c) \/ GotReply(c)
+\* the second peer closes its connection: that connection's receiver ends and deregisters it; the outstanding-call table is node-wide
+\* and keyed by reply pid only, so the calls to the first peer must not notice
+OtherPeerCloses == /\ otherUp /\ otherUp' = FALSE /\ H("other_close", 0)
+                   /\ IF ClearOnAnyDisconnect
+                      THEN /\ table' = {}
+                           /\ result' = [c \in Callers |-> IF pc[c] = "awaiting" /\ result[c].k = "none" THEN R("cancelled", 0) ELSE result[c]]
+                      ELSE UNCHANGED <<table, result>>
+                   /\ UNCHANGED <<pc, rid, conn, wire, inbox, nextRid, replies, delivered>>
+Next0 == \/ \E c \in Callers : Alloc(c) \/ Insert(c) \/ NoConn(c) \/ SendOk(c) \/ SendFail(c) \/ Timeout(c) \/ Cleanup(c) \/ GotReply(c)
         \/ \E r \in wire \cup {Stray} \cup {Stale(w) : w \in wire} : PeerReply(r)
         \/ Route
+Next == (Next0 /\ UNCHANGED otherUp) \/ OtherPeerCloses
 Spec == Init /\ [][Next]_vars
 \* ---- C17
 OwnReplyOnly == \A c \in Callers : result[c].k = "reply" => result[c].r = rid[c]
 AtMostOnce == \A r \in DOMAIN delivered : delivered[r] <= 1
 Quiescent == (\A c \in Callers : pc[c] = "returned") /\ inbox = <<>>
 NothingLeft == Quiescent => table = {}
-View == <<pc, rid, table, conn, wire, inbox, result, nextRid, replies, delivered>>
+\* a call is cancelled only by the end of its own connection (which this model never ends while a call is outstanding)
+NoSpuriousCancel == \A c \in Callers : result[c].k # "cancelled"
+View == <<pc, rid, table, conn, wire, inbox, result, nextRid, replies, delivered, otherUp>>
 =============================================================================
